@@ -101,7 +101,10 @@ MenuConc == Installs({"cA", "cB"}, F, F, F, F, F) \cup Upgrades({"cB", "cC"}, F,
 MenuConcA == Upgrades({"cB", "cC"}, {TRUE}, B, {0}, F, F, F) \cup Upgrades({"cB"}, F, F, {0}, F, F, F)
 MenuConcAX == MenuConcA \cup Installs({"cA"}, F, B, F, F, F)
 MenuConcLim == Upgrades({"cB", "cC"}, F, F, {2}, F, F, F)
+\* (cI: a chart with pre-upgrade / pre-install hooks; upgrade --install: the command-line wiring of two racing "upsert"s)
 MenuConcX == MenuConc \cup Installs({"cB"}, {TRUE}, F, F, F, F) \cup Upgrades({"cB"}, F, F, {2}, F, F, F)
+             \cup Upgrades({"cI"}, F, F, {0}, F, F, F) \cup Installs({"cI"}, F, F, F, F, F)
+             \cup UpInstalls({"cA"}, F, F, F, F, F)
 \* long histories (C01 pruning over two-digit revision numbers: storage lists records by NAME, v1 v10 v11 v2 ...)
 MenuLong == Installs({"cA"}, F, F, F, F, F) \cup Upgrades({"cA", "cB"}, F, F, {0, 3, 10, 11}, F, F, F)
             \cup Rollbacks({0, 2}, {0, 10}, F, F, F) \cup Uninstalls(B, F, F)
